@@ -541,7 +541,24 @@ func (p *Prog) spawnOrdered(fi *FieldInfo, a *Access) bool {
 		}
 		h := goSite.Parent()
 		for _, w := range writes {
-			if w.Fn != h || !InstrDominates(w.In, goSite) {
+			if w.Fn == h {
+				if !InstrDominates(w.In, goSite) {
+					return false
+				}
+				continue
+			}
+			// the write sits in a single-use private helper that h calls before the spawn
+			ok := false
+			if p.singleUse(w.Fn) {
+				EachInstr(h, func(in ssa.Instruction) {
+					if c := CallOf(in); c != nil && c.StaticCallee() == w.Fn {
+						if _, isGo := in.(*ssa.Go); !isGo && InstrDominates(in, goSite) {
+							ok = true
+						}
+					}
+				})
+			}
+			if !ok {
 				return false
 			}
 		}
